@@ -12,6 +12,7 @@ import (
 	"flag"
 	"fmt"
 	"os"
+	"runtime"
 	"runtime/debug"
 	"strconv"
 	"strings"
@@ -76,6 +77,11 @@ func main() {
 	deadline := flag.Duration("deadline", 0, "stop starting new runs after this long")
 	flag.Parse()
 	debug.SetGCPercent(400)
+	if !simrt.RaceBuild {
+		// the history properties run one goroutine; with a single P the object a sync.Pool
+		// hands back does not depend on which P the goroutine happens to be on
+		runtime.GOMAXPROCS(1)
+	}
 	out := bufio.NewWriterSize(os.Stdout, 1<<16)
 	defer out.Flush()
 	emit := func(v any) {
